@@ -35,6 +35,23 @@ import (
 
 func init() { areas["utxo"] = runUtxo }
 
+// the denomination table as it is at start-up (protocol constants; the Lean model carries its own copy, regenerated
+// from the source): the oracles value amounts with this private copy, not with the table the processor can reach
+var utFrozenDenoms = func() map[uint8]*big.Int {
+	m := map[uint8]*big.Int{}
+	for d, v := range types.Denominations {
+		m[d] = new(big.Int).Set(v)
+	}
+	return m
+}()
+
+func utDenom(d uint8) *big.Int {
+	if v, ok := utFrozenDenoms[d]; ok {
+		return v
+	}
+	return new(big.Int)
+}
+
 type utChain struct {
 	pt       *types.WorkObject
 	eligible map[byte]bool
@@ -363,6 +380,10 @@ func runUtxo(seed uint64, n int, outDir string, replay string) {
 				var outs types.TxOuts
 				data := []byte(nil)
 				mode := rc.Intn(100) // 0..59 plain, 60..74 with foreign outputs, 75..84 conversion, 85..92 wrapping, rest odd
+				alterAfterSigning := adversarial == 18 || (adversarial >= 30 && adversarial < 33)
+				if alterAfterSigning && rc.Chance(60) {
+					mode = 75 + rc.Intn(18) // alterations of the data of conversions and wrappings too
+				}
 				budget := new(big.Int).Set(totalIn)
 				feeTarget := new(big.Int).Div(totalIn, big.NewInt(int64(2+rc.Intn(20))))
 				if rc.Chance(10) {
@@ -477,13 +498,45 @@ func runUtxo(seed uint64, n int, outDir string, replay string) {
 				} else {
 					tx = utSign(inner, privs)
 				}
-				if adversarial == 18 && len(outs) > 0 {
+				if alterAfterSigning && len(outs) > 0 {
 					// alter the tx after signing: the signature no longer covers it
+					// (any signed part: an output's address / denomination / lock, any byte of the data - also its last ones)
 					outs2 := append(types.TxOuts(nil), outs...)
-					outs2[0].Address = freshAddr(0x00, true)
-					inner2 := &types.QiTx{ChainID: txChain, TxIn: txins, TxOut: outs2, Data: data, Signature: tx.GetSchnorrSignature()}
+					data2 := append([]byte(nil), data...)
+					kind := rc.Intn(4)
+					if len(data2) > 0 && rc.Chance(60) {
+						kind = 4
+					}
+					switch kind {
+					case 0, 3:
+						outs2[0].Address = freshAddr(0x00, true)
+					case 1:
+						i := rc.Intn(len(outs2))
+						if outs2[i].Denomination > 0 {
+							outs2[i].Denomination--
+						} else {
+							outs2[i].Address = freshAddr(0x00, true)
+						}
+					case 2:
+						i := rc.Intn(len(outs2))
+						outs2[i].Address = append([]byte(nil), outs2[i].Address...)
+						outs2[i].Address[len(outs2[i].Address)-1] ^= 0x10
+					case 4:
+						i := len(data2) - 1 - rc.Intn(min(3, len(data2)))
+						if rc.Chance(30) {
+							i = rc.Intn(len(data2))
+						}
+						if i < 2 || i > 3 { // bytes 2 and 3 of a refund / owner address carry its zone and ledger: keep them
+							data2[i] ^= 1 << uint(rc.Intn(8))
+						} else {
+							data2[len(data2)-1] ^= 0x01
+						}
+					}
+					o.Count(fmt.Sprintf("altered-after-signing:%d", kind))
+					inner2 := &types.QiTx{ChainID: txChain, TxIn: txins, TxOut: outs2, Data: data2, Signature: tx.GetSchnorrSignature()}
 					tx = types.NewTx(inner2)
 					outs = outs2
+					data = data2
 					sigOK = false
 				}
 				isFirst := t == 0 && rc.Chance(50)
@@ -548,16 +601,22 @@ func runUtxo(seed uint64, n int, outDir string, replay string) {
 						k = "w"
 						conv.Add(conv, e.Value)
 					default:
-						sent.Add(sent, types.Denominations[uint8(e.Value.Uint64())])
+						sent.Add(sent, utDenom(uint8(e.Value.Uint64())))
 					}
 					es = append(es, fmt.Sprintf("%s:%s:%s:%d:%d", e.Value, h.Hex(e.To.Bytes()), k, e.ETXIndex, e.Gas))
 				}
 				tin, tout := new(big.Int), new(big.Int)
 				for _, u := range ucd.UtxosDeleted {
-					tin.Add(tin, types.Denominations[u.Denomination])
+					tin.Add(tin, utDenom(u.Denomination))
 				}
 				for _, out := range outs {
-					tout.Add(tout, types.Denominations[out.Denomination])
+					tout.Add(tout, utDenom(out.Denomination))
+				}
+				for d, v := range utFrozenDenoms {
+					if cur := types.Denominations[d]; cur == nil || cur.Cmp(v) != 0 {
+						o.Violate("c01-denomination-table-changed", fmt.Sprintf("after this transaction the value of denomination %d is %v (it is the protocol constant %s): every later Qi amount is mis-valued", d, cur, v))
+						types.Denominations[d] = new(big.Int).Set(v) // keep going with the right table
+					}
 				}
 				ans(fmt.Sprintf("ok fee=%s in=%s out=%s conv=%s used=%d etxs=%s created=%d deleted=%d", fee, tin, tout, conv, *usedGas, strings.Join(es, ","), len(ucd.UtxosCreatedKeys), len(ucd.UtxosDeleted)))
 				// T3: each outpoint at most once, owned, unlocked; value equation
